@@ -76,12 +76,13 @@ def closure_body(facts, cl):
     return facts.bodies.get(cl[1]) or next((b for b in facts.bodies.values() if b.path == cl[1]), None)
 
 
-def closure_apply(facts, cl, args):
-    """cl = ('closure', defpath, cap0, cap1, ...); args = DAGs of the call arguments (closure params 2, 3, ...)"""
+def closure_apply(facts, cl, args, dag=None):
+    """cl = ('closure', defpath, cap0, cap1, ...); args = DAGs of the call arguments (closure params 2, 3, ...).
+    dag: a DAG over the closure body's own parameters / captures to express over the caller's values (default: its return value)"""
     b = closure_body(facts, cl)
     if b is None or b.loops():
         return None
-    r = retval(b)
+    r = retval(b) if dag is None else dag
     names = capture_names(b)
     caps = {names[i]: cl[2 + i] for i in names if 2 + i < len(cl)}
 
